@@ -69,7 +69,7 @@ def run(ctx):
                       env={"VERIF_STAGE": "pyexh", "VERIF_MODE": "exh",
                            "VERIF_C10_PYDRIVER": os.path.join(HARNESS, "py_driver.py"), "VERIF_C10_PYDIR": pyranges})
 
-    return standard(ctx, "C10", ["model/C10_run.vo", "lib/Bytes63.vo"], stages, known_bits={4: "F15", 8: "F14"},
+    return standard(ctx, "C10", ["model/C10_run.vo", "lib/Bytes63.vo"], stages,
                     rule="grammar-directed manifests (1-4 streams, 1-5 blocks of 0-20 bytes with interior empty and repeated blocks, "
                          "file tokens at every block-boundary alignment, repeated tokens/names, names with space, colon, backslash, "
                          "\\ddd and high bytes, directory markers), 30% single-token mutations, 10% arbitrary byte strings; "
